@@ -509,4 +509,19 @@ example : NoAlias sampleShape ∧ InHeap sampleShape (List.replicate 10 V3.zero)
   · unfold NoAlias; decide
   · unfold InHeap; decide
 
+/-! ### Round 6c: slot cardinalities from the constructors -/
+
+/-- how many parts the slot `attr` of class `cls` holds, according to the model's schema -/
+def slotCard (cls attr : String) : Option (Nat × Option Nat) :=
+  (schema.find? (fun r => r.cls == cls)).bind (fun r => (r.slots.find? (fun s => s.name == attr)).map (fun s => (s.lo, s.hi)))
+
+/-- the cardinalities the model's schema uses for the corner points and edges of a face and the side edges of an
+    operation (hypotheses of the centre theorems through `wfV`) are the ones the constructors insist on: the shape guard
+    `(4, 3)` and the `len(edges) != 4` guard of `Face.__init__`, the four-element list literal of `Operation.__init__`
+    (read with `ast` on every run) -/
+theorem T_C09_cardinality_source :
+    Gen.c09Cardinality.map (fun r => (r.1, r.2.1)) = [("Face", "points"), ("Face", "edges"), ("Operation", "side_edges")] ∧
+      Gen.c09Cardinality.all (fun r => slotCard r.1 r.2.1 == some (r.2.2, some r.2.2)) = true := by
+  constructor <;> rfl
+
 end CBV.C09
